@@ -1149,3 +1149,45 @@ func checkIntParserGuard(c *Ctx, rule string) {
 		c.Unresolved(rule, "strconv.ParseInt in specutil.ColumnDefault")
 	}
 }
+
+// ---------------------------------------------------------------------------
+// R06g: a sum-file line is split where it cannot be ambiguous.
+
+const ruleTextSumLineSplit = "a sum-file line `<name> h1:<hash>` is split at the LAST separator: the hash is base64 and cannot contain the separator, the file name can; HashFile.UnmarshalText must not locate the separator with a first-occurrence search (SplitN, Index, Cut, Split), otherwise a directory holding a file whose name contains the separator is written correctly and read back wrongly (an untouched directory fails validation)"
+
+func checkSumLineSplit(c *Ctx, rule string) {
+	uf := c.Func(rule, pMigrate, "HashFile", "UnmarshalText")
+	if uf == nil {
+		return
+	}
+	info := uf.Info()
+	// the per-line loop: `for sc.Scan() { … }`
+	n := 0
+	ast.Inspect(uf.Decl.Body, func(m ast.Node) bool {
+		loop, ok := m.(*ast.ForStmt)
+		if !ok {
+			return true
+		}
+		for _, call := range callsIn(loop.Body, true) {
+			fn := calleeOf(info, call)
+			if fn == nil || fn.Pkg() == nil || fn.Pkg().Path() != "strings" || len(call.Args) < 2 {
+				continue
+			}
+			if k, ok := stringConst(info, call.Args[1]); !ok || k == "" {
+				continue
+			}
+			switch fn.Name() {
+			case "LastIndex", "LastIndexByte":
+				n++
+				c.Check(rule, "HashFile.UnmarshalText|strings."+fn.Name()+" splits the line", call.Pos(), true, "")
+			case "SplitN", "Split", "Index", "IndexByte", "Cut", "SplitAfterN", "SplitAfter":
+				n++
+				c.Check(rule, "HashFile.UnmarshalText|strings."+fn.Name()+" splits the line", call.Pos(), false, "UnmarshalText locates the name/hash separator with strings.%s (first occurrence): a file name that contains the separator is cut short and the rest is taken for the hash", fn.Name())
+			}
+		}
+		return true
+	})
+	if n == 0 {
+		c.Unresolved(rule, "the call that splits a sum-file line in HashFile.UnmarshalText")
+	}
+}
